@@ -43,7 +43,87 @@ def check(pid, tier, seed):
     run = p_kani.check(pid, tier, seed, SPECS, plan(tier), FUNCS, {"containers": "2 bytes / 3 characters", "integers": "full 64-bit", "unwind": "6-8"},
                        ASSUME, RULE, slots=4)
     eqtab_obligation(run)
+    eqsides_obligation(run)
     return run
+
+
+def eqsides_obligation(run):
+    """E3j: the equality handler compares left with right (lib/p_eqsides.py: data flow of the handler's calls and
+    comparisons from MIR -> z3)"""
+    import os, re, json, shutil, subprocess, time
+    import ws, p_eqsides, p_kinds
+    oid = "eqsides:handler-compares-left-with-right"
+    t0 = time.time()
+    M = getattr(run, "_c11mir", None)
+    try:
+        if M is None:
+            wsdir = ws.prepare("c11mir", [])
+            root = os.path.dirname(wsdir)
+            out = os.path.join(root, "steel_core.mir")
+            env = ws.mir_dump(wsdir, root, out)
+        else:
+            wsdir, root, out, env = M
+        kinds = p_kinds.variants(os.path.join(wsdir, "crates", "steel-core", "src"))
+        r = p_eqsides.analyse(open(out).read(), kinds)
+    except Exception as ex:
+        run.ob(oid, "inconclusive", reason="extraction failed: %s" % str(ex)[-300:], engine="mir-smt")
+        return
+    common = dict(engine="mir-smt/z3", wall_s=round(time.time() - t0, 1), solver_s=round(r["dt"], 3), solver_checks=r["queries"])
+    run.samples.append({"engine": "mir-smt", "query": "exists a call / comparison in RecursiveEqualityHandler::visit whose two operands both derive from the SAME popped value; "
+                        "exists a kind whose arm iterates over a payload without comparing the two payloads' lengths; exists a should_visit site whose key derives from one side only",
+                        "should_visit sites": r.get("visited_sites"),
+                        "two-operand sites": r["sites"], "kinds iterated": r["iterating"], "kinds with a length comparison": r["length_compared"]})
+    run.functions.append("rvals::cycles::RecursiveEqualityHandler::visit: operand origins of %d calls / comparisons (MIR)" % r["sites"])
+    if r["errors"] or r["sites"] < 25 or len(r["iterating"]) < 2:
+        run.ob(oid, "inconclusive", reason="; ".join(r["errors"][:3]) or "vacuous tables (%d sites, %d iterated kinds)" % (r["sites"], len(r["iterating"])), **common)
+        return
+    if not r["bad"]:
+        run.ob(oid, "pass", nonvacuous=True, note="%d two-operand sites take one operand from each side; %d iterated kinds compare lengths" % (r["sites"], len(r["iterating"])), **common)
+        return
+    viol, known, incon = [], [], []
+    for b in r["bad"]:
+        if b["fact"] == "visited-key":
+            ks = ["shared-substructure"]
+            what = ("%d `should_visit` site(s) (kinds %s) remember a sub-object under a key made from ONE side only: the second occurrence of a shared "
+                    "sub-object counts as already compared whatever stands opposite it" % (b["sites"], ", ".join(b["kinds"])))
+            pairs = p_eqsides.DAG_PAIRS
+        else:
+            ks = b["site"]["kinds"] if b["fact"] == "two-sided" else [b["kind"]]
+            pairs = [p for k in ks for p in p_eqsides.PAIRS.get(k, [])]
+        what = what if b["fact"] == "visited-key" else ("`%s` in the arm for %s takes both operands from the %s value: the value is compared with itself" % (b["site"]["what"], "/".join(ks), "left" if b["site"]["a"] == 0 else "right")
+                if b["fact"] == "two-sided" else "the arm for %s iterates over one operand without comparing the two lengths" % b["kind"])
+        obs = None
+        try:
+            shutil.copy(os.path.join(ws.VERIF, "harness", "arity_replay.rs"), os.path.join(wsdir, "crates", "steel-core", "tests", "verif_arity_replay.rs"))
+            spec = ";;".join("%s|%s|%s" % (a, bb, "t" if w else "f") for a, bb, w in pairs)
+            p = subprocess.run(["cargo", "test", "--offline", "-p", "steel-core", "--no-default-features", "--features", ws.FEATURES,
+                                "--test", "verif_arity_replay", "--target-dir", os.path.join(root, "tn"), "--", "eqsides_replay", "--exact", "--nocapture"],
+                               cwd=wsdir, env=dict(env, VERIF_EQ_PAIRS=spec), capture_output=True, text=True, timeout=2400)
+            m = re.search(r"OBSERVED: (.*)", p.stdout + p.stderr)
+            obs = m.group(1) if m else None
+        except Exception as ex:
+            incon.append("replay failed: %s" % str(ex)[-200:])
+            continue
+        if not obs:
+            incon.append("solver: %s; equal? answered every probe pair as expected" % what)
+            continue
+        d = os.path.join(ws.VERIF, "replays", run.pid)
+        os.makedirs(d, exist_ok=True)
+        key = "eqsides:%s-%s" % (b["fact"], "+".join(ks))
+        path = os.path.join(d, "eqsides_%s.json" % "_".join(ks))
+        json.dump({"property": run.pid, "kind": "eqsides", "what": what, "pairs": spec, "observed": obs, "how": "./check %s --replay <this file>" % run.pid}, open(path, "w"), indent=1)
+        if run.is_known(key):
+            run.known_hit(key, run.known[(run.pid, key)] + " -- " + obs[:200])
+            known.append(key)
+        else:
+            run.violation(key, "%s; natively: %s" % (what, obs[:300]), path)
+            viol.append(obs)
+    if viol:
+        run.ob(oid, "fail", note=viol[0][:200], **common)
+    elif incon:
+        run.ob(oid, "inconclusive", reason=incon[0], **common)
+    else:
+        run.ob(oid, "known", nonvacuous=True, **common)
 
 
 def eqtab_obligation(run):
@@ -59,6 +139,7 @@ def eqtab_obligation(run):
         out = os.path.join(root, "steel_core.mir")
         env = ws.mir_dump(wsdir, root, out)
         kinds = p_kinds.variants(os.path.join(wsdir, "crates", "steel-core", "src"))
+        run._c11mir = (wsdir, root, out, env)
         r = p_eqtab.analyse(open(out).read(), kinds)
     except Exception as ex:
         run.ob(oid, "inconclusive", reason="extraction failed: %s" % str(ex)[-300:], engine="mir-smt")
@@ -109,6 +190,20 @@ def eqtab_obligation(run):
 def replay(pid, path):
     import json
     payload = json.load(open(path))
+    if payload.get("kind") == "eqsides":
+        import os, re, shutil, subprocess, ws
+        wsdir = ws.prepare("c11replay", [])
+        root = os.path.dirname(wsdir)
+        shutil.copy(os.path.join(ws.VERIF, "harness", "arity_replay.rs"), os.path.join(wsdir, "crates", "steel-core", "tests", "verif_arity_replay.rs"))
+        p = subprocess.run(["cargo", "test", "--offline", "-p", "steel-core", "--no-default-features", "--features", ws.FEATURES,
+                            "--test", "verif_arity_replay", "--target-dir", os.path.join(root, "tn"), "--", "eqsides_replay", "--exact", "--nocapture"],
+                           cwd=wsdir, env=dict(os.environ, VERIF_EQ_PAIRS=payload["pairs"]), capture_output=True, text=True)
+        m = re.search(r"OBSERVED: (.*)", p.stdout + p.stderr)
+        print("observed:", m.group(1) if m else "not reproduced")
+        if m:
+            print("VIOLATION property=%s replay=%s" % (pid, path))
+            return 1
+        return 0
     if payload.get("kind") == "eqtab":
         import os, re, shutil, subprocess, ws
         wsdir = ws.prepare("c11replay", [])
